@@ -370,7 +370,8 @@ var assignKeys = []string{"A", "B", "C", "x", "_y", "Ab_1", "E2", "LONG_name", "
 
 var valueAtoms = []string{"", "v", "w1", "two words", " lead", "trail ", "tab\tx", "q'uo'te", "'", "''", "$A", "${B}", "$",
 	"$$", "#", "a#b", " # c", "a=b", "=", "\r", "x\ry", "é", "日本", "\xff\xfe", ".*+?()|[]{}^$\\", "a.b", "\\", "}", "{",
-	"${", "@R", "\x7f", "\x01", "${A@R}", "(x|y)", "[a-z]+", "^a$", "A", "args", "\u00a0", "\\E\\Q", "1"}
+	"${", "@R", "\x7f", "\x01", "${A@R}", "(x|y)", "[a-z]+", "^a$", "A", "args", "\u00a0", "\\E\\Q", "1",
+	"\f", "\v", "a\u2003b", "\u0085", "\u3000", "x\fy\vz"}
 
 func genValue(r *common.RNG) string {
 	n := 1 + r.Intn(3)
@@ -392,6 +393,32 @@ func genValue(r *common.RNG) string {
 var allowNul, allowMisuse bool
 
 const plainAlphabet = "abcxyzABZ019_-./:=,+%@~^[]{}()*?!|\\\"`;<>&\xc3\xa9\x80\xff"
+
+// specialBytes: what an oracle word "over ordinary bytes" must avoid: the tokenizer's own
+// separator and quote characters (read from the regenerated constants through the model
+// driver at start-up), '$' and NL.  Everything else — form feed, vertical tab, NBSP, U+0085,
+// U+2003, U+3000, invalid UTF-8 — is an ordinary byte for the property ("split at unquoted
+// spaces and tabs").
+var specialBytes = " \t\r#'$\n"
+
+var wideAtoms = []string{"a", "b", "Z", "0", "_", "-", ".", "/", "=", "\f", "\v", "\r", "\u00a0", "\u0085", "\u2003", "\u3000",
+	"\u1680", "\u2028", "\u202f", "\x1c", "\x1f", "\x7f", "\xff", "\x80", "\xc2", "\xe2\x80", "é", "日", "\\", "\"", "{", "}", "@R", "~", "x\fy", "\u00a0x"}
+
+// genWide: a non-empty word over all bytes that are not special for the tokenizer
+func genWide(r *common.RNG) string {
+	for {
+		s := ""
+		for i, n := 0, 1+r.Intn(3); i < n; i++ {
+			a := common.Pick(r, wideAtoms)
+			if !strings.ContainsAny(a, specialBytes) {
+				s += a
+			}
+		}
+		if s != "" {
+			return s
+		}
+	}
+}
 
 func genPlain(r *common.RNG, min int) string {
 	n := min + r.Intn(4)
@@ -933,7 +960,7 @@ func (rn *runner) handleOracle(oc *oracleCase, sc *script, o *scriptObs) {
 					wi := common.ShrinkBytes([]byte(want[i]), func(c []byte) bool {
 						ws := append([]string{}, want...)
 						ws[i] = string(c)
-						if oc.name == "plain-split" && (len(c) == 0 || strings.ContainsAny(string(c), " \t\r#'$")) {
+						if oc.name == "plain-split" && (len(c) == 0 || strings.ContainsAny(string(c), specialBytes)) {
 							return false
 						}
 						return failsWith("", ws)
@@ -1164,7 +1191,11 @@ func buildScript(r *common.RNG, sidx, ncases int, execEvery int) (*script, []*or
 			n := 1 + r.Intn(4)
 			ws := []string{}
 			for i := 0; i < n; i++ {
-				ws = append(ws, genPlain(r, 1))
+				if r.Chance(1, 2) {
+					ws = append(ws, genWide(r))
+				} else {
+					ws = append(ws, genPlain(r, 1))
+				}
 			}
 			seps := []string{common.Pick(r, []string{" ", "\t", "  ", " \t", "\t\t ", "\t "}), common.Pick(r, []string{" ", "\t", "\t \t"}), "\t", " "}
 			lead, trail := common.Pick(r, []string{"", "", " ", "\t"}), common.Pick(r, []string{"", "", " ", "\t", " \t "})
@@ -1524,6 +1555,11 @@ func main() {
 	}
 	defer m.Close()
 	rn := &runner{f: f, res: res, m: m, shrunk: map[string]int{}}
+	if c := strings.Fields(m.Ask1("consts")); len(c) == 2 {
+		specialBytes = string(common.UnHex(c[0])) + string(common.UnHex(c[1])) + "$\n"
+	} else {
+		res.Notes = append(res.Notes, "model driver did not answer the consts request; using the built-in special byte set")
+	}
 
 	// the helper program: this binary under the name envdump
 	helperDir = filepath.Join(f.Work, "helperbin")
